@@ -265,6 +265,42 @@ def cmdline_entries(ents, args, skip=()):
     return {e["id"]: e["occ"] for e in ents if e["id"] in opt_ids and e["src"] == "cmdline" and e["id"] not in skip}
 
 
+COND_KEYS = ("r_if", "r_if_all", "requires_if", "difs")
+
+
+def room_left(ra, rc, lv, args, pre, tail, parts):
+    """the absolute half of 'able to absorb them': the line without the tail is accepted, its last token is a value of the
+    final multi-valued positional (so that occurrence is still collecting when `--` is read), that positional takes any string,
+    is undelimited, not named by a value-conditional rule, and has room for the whole tail -- then nothing can reject the
+    tail: it only adds values to an argument that is present anyway (seeded change seed3/C05-3 flushed the occurrence at `--`)"""
+    if rc["kind"] != "ok" or not tail or not pre:
+        return None
+    last = positionals_in_order(args)[-1]
+    if last.get("vp") not in (None, "os", "string") or last.get("delim") or any(a.get(k) for a in args for k in COND_KEYS):
+        return None
+    if last.get("vp") != "os":
+        try:
+            for t in tail:
+                t.decode("utf-8")     # the String parser rejects what is not UTF-8: a rule about the VALUE, not its look
+        except UnicodeDecodeError:
+            return None
+    lc = levels(rc["m"])
+    if len(lc) != len(lv):
+        return None
+    e = {x["id"]: x for x in lc[-1][0]}.get(last["id"])
+    if e is None or e["src"] != "cmdline" or not e["occ"] or not e["occ"][-1] or not e["idx"]:
+        return None
+    top = max([i for ents, _ in lc for x in ents if x["src"] == "cmdline" for i in x["idx"]] or [0])
+    if e["idx"][-1] != top or e["occ"][-1][-1] != pre[-1]:
+        return None
+    hi = (last.get("num") or (1, 1))[1]
+    if hi is not None and len(e["occ"][-1]) + len(tail) > hi:
+        return None
+    STATS["judged:room-left"] += 1
+    return "the final positional %s was collecting values when `--` was read and has room for the tail, yet the line is " \
+           "rejected with %s (without the tail: accepted)" % (last["id"].decode(), ra["ekind"])
+
+
 CLASSIFYING_KINDS = ("DisplayHelp", "DisplayVersion", "UnknownArgument", "InvalidSubcommand", "NoEquals")
 STATS = collections.Counter()
 
@@ -340,7 +376,7 @@ def oracle(case, impl):
     if rb["kind"] == "ok" and ra["kind"] == "err" and ra["ekind"] in CLASSIFYING_KINDS:
         return "tail rejected with %s although the same line with innocuous words after `--` is accepted" % ra["ekind"]
     if ra["kind"] != "ok":
-        return None
+        return room_left(ra, rc, lv, args, pre, tail, parts)
     if chain_of(ra) != chain:
         return "subcommand chain depends on the tail: %r vs %r" % (chain_of(ra), chain)
     for r in (rb, rc):
@@ -498,6 +534,10 @@ def force_trailing_multi(rng, c, depth=0):
             a["num"] = rng.choice([(0, None), (1, None), (1, None), (1, None), (2, None)])
             if a["num"][0] == 2:
                 a["num"] = (1, None)
+            if rng.random() < 0.25:
+                # bounded ranges (action Set by default) and minimums above one: the occurrence before `--` and the tail are
+                # ONE occurrence (seeded change seed3/C05-3)
+                a["num"] = rng.choice([(1, 6), (1, 4), (2, None), (2, 8), (3, None)])
         if a.get("term") is not None and rng.random() < 0.6:
             a.pop("term")
         if a.get("vp") and rng.random() < 0.7:
